@@ -144,6 +144,15 @@ CLAIMS = {
           'sigma clipping, per-position local background, batch==single and sky==to_pixel on the implementation.',
   'note': 'Trusted: Lean kernel + standard axioms; hand model tied by differential testing; astropy SigmaClip; moment-based shape columns beyond the centroid not modelled. Cases whose aperture weights are non-finite are C01 known finding F20 and are skipped here.',
  },
+ 'C12': {
+  'design_ref': 'DESIGN.md §5 C12',
+  'technique': 'Lean 4 theorems on the bookkeeping model of PSFPhotometry / SourceGrouper (groups as graph components via the C04 theory, grouped<->input order permutation, fit-window counts, flags) + correspondence; recovery probed',
+  'text': 'Proved in Lean: two sources receive the same group id iff they are linked by a chain of sources each within min_separation of the next - single linkage - and ids are numbered by first appearance (group_ids_are_components, reusing the connected-component theory of C04 on the point graph, pointGraph); '
+          'values produced in grouped order and put back with argsort(ids) are in input order for EVERY grouping permutation, in particular for the stable group_by order the table uses (ungroup_restores_input_order, groupOrder_perm, fit_results_in_input_order); group_size counts the members (groupSizes_spec); the documented flag bits 1, 2, 4 are exactly their defining conditions (flags_bits). '
+          '[partial] recovery of x, y, flux of a rendered scene depends on the optimiser and is NOT proved: it is checked on the implementation for noise-free scenes (Gaussian PRF, ImagePSF; isolated and moderately blended sources, edges, masks, shuffled rows, supplied group_id, flux scaling, fixed parameters, iterative(maxiters=1)==single). '
+          'Tie: SourceGrouper on dyadic positions with exact ties at the separation vs the Lean component model; group ids/sizes, npixfit, invalid-position test and flag bits of real PSFPhotometry results vs the model.',
+  'note': 'Trusted: Lean kernel + standard axioms; hand model tied by differential testing; astropy fitters, error estimates and the local-background estimator not modelled; very close blends (< 1 FWHM) are outside the generated scenes because convergence of the optimiser is not part of the model.',
+ },
 }
 
 _todo = 'check not built yet in this round (see DESIGN.md §10 build order); not claimed until its machinery is committed'
